@@ -164,6 +164,7 @@ pub fn draw_spec(rng: &mut Rng, roots: &[String], other_files: &[String], known_
     }
     spec.help = rng.chance(1, 40);
     spec.version = rng.chance(1, 40);
+    spec.long_opts = rng.chance(1, 4);
     spec
 }
 
@@ -179,4 +180,5 @@ pub fn draw_knobs(rng: &mut Rng, spec: &mut Spec) {
         spec.color = Some(rng.pick(&["on", "off"]).to_string());
     }
     spec.quiet |= rng.chance(1, 2);
+    spec.long_opts |= rng.chance(1, 8);
 }
